@@ -251,6 +251,11 @@ func checkC12(c *Ctx) {
 	} else {
 		r.Bad("C12.termination", "recursion:$include", "-", why)
 	}
+	if good, why := includeBudget(p); good {
+		r.OK("C12.termination", "recursion:$include-budget", "-", "the inclusions of the whole parse are counted against a constant, across nested parsers")
+	} else {
+		r.Bad("C12.termination", "recursion:$include-budget", "-", why)
+	}
 	if good, why := includeLinear(p); good {
 		r.OK("C12.termination", "recursion:$include-linear", "-", "a too-deep error ends every enclosing Parse loop: at most maxIncludeDepth+1 nested parses")
 	} else {
